@@ -231,9 +231,8 @@ def judge_request(raw, cfg):
             either.append("odd extension header")
         elif b"permessage-" in v and (b"=" in v or b";" in v):
             either.append("compression offer parameters (judged in C12)")
-    for n in (b"upgrade", b"connection"):
-        if len(h[n]) > 1:
-            either.append("repeated %s header" % n.decode())
+    # (Upgrade / Connection are list-valued: several header lines are the same as one line with the
+    # values joined by commas - RFC 7230 3.2.2 - and are judged like that above)
     mc = cfg.get("maxConnections", 0)
     if mc and cfg.get("currentConnections", 0) > mc:
         return Verdict("reject", "connection limit reached")
